@@ -3,10 +3,11 @@
 
 1. scratch worktree of /repo: demo passes on the unchanged tree;
 2. patch applies, library builds, ctest 41/41, demo fails;
-3. patch applied to /repo, `bin/check <PROP> --tier quick` run, /repo restored;
+3. patch applied to a second scratch worktree, `VERIF_REPO=<worktree> bin/check <PROP> --tier quick` run;
 4. kept under /verif/seeded/<name>/ with meta.json.
 """
 import sys, os, subprocess, json, shutil, time, re, glob
+from shlex import quote as shquote
 VERIF = os.path.dirname(os.path.dirname(os.path.abspath(__file__)))
 prop, src = sys.argv[1], sys.argv[2].rstrip("/")
 name = sys.argv[3] if len(sys.argv) > 3 else "%s-%s" % (prop, os.path.basename(src))
@@ -22,6 +23,31 @@ def build_and_test():
     r = sh("cd %s && cmake -G Ninja -B _build -DBUILD_TESTING=ON -DCMAKE_BUILD_TYPE=RelWithDebInfo -DCMAKE_C_FLAGS=-Wno-error -DLIBA_CXX=ON >/dev/null 2>&1 && cmake --build _build 2>&1 | tail -3 && ctest --test-dir _build -j8 --timeout 900 2>&1 | tail -4" % wt)
     m = re.search(r"(\d+)% tests passed, (\d+) tests failed out of (\d+)", r.stdout)
     return (m is not None and m.group(2) == "0" and m.group(3) == "41"), r.stdout[-400:]
+
+
+def header_command(d):
+    """the compile+run command the author put at the top of the demo, re-targeted at the confirmation worktree"""
+    top = open(d, errors="replace").read(6000)
+    lines = top.splitlines()
+    for i, ln in enumerate(lines):
+        if re.search(r"(^|[\s;&(])(cc|gcc|g\+\+|c\+\+|clang|clang\+\+)\s", ln) and "-o" in " ".join(lines[i:i + 6]):
+            j = i
+            # include a leading "cd ... && \" line
+            if i > 0 and re.search(r"cd\s+\S+.*(&&\s*\\?|\\)\s*$", lines[i - 1]):
+                i -= 1
+            cmd = []
+            k = i
+            while k < len(lines):
+                t = re.sub(r"^\s*(//+|\*+)?\s*", "", lines[k]).rstrip()
+                cmd.append(t.rstrip("\\").strip())
+                if not (t.endswith("\\") or t.endswith("&&")):
+                    break
+                k += 1
+            c = " ".join(cmd)
+            c = re.sub(r"/tmp/wt2?/C\d\d", wt, c)
+            c = re.sub(r";\s*echo .*$", "", c)
+            return c
+    return None
 
 
 def demo():
@@ -44,6 +70,15 @@ def demo():
     return r.returncode, r.stdout[-600:]
 
 
+def demo_header():
+    d = (glob.glob(os.path.join(src, "demo.c*")) + [None])[0]
+    c = header_command(d) if d else None
+    if not c:
+        return None, "no header command"
+    r = sh("cd %s && timeout 300 bash -c %s" % (os.path.dirname(d), shquote(c)))
+    return r.returncode, (c + "\n" + r.stdout)[-900:]
+
+
 meta = {"property": prop, "name": name, "source": "independent sub-agent given only the property text", "ran": []}
 sh("git -C /repo worktree remove --force %s" % wt)
 sh("git -C /repo worktree add --detach %s HEAD" % wt)
@@ -54,17 +89,30 @@ try:
     meta["patch_applies"] = r.returncode == 0
     ok, out = build_and_test(); meta["patched_ctest_ok"] = ok; meta["patched_ctest_tail"] = out
     rc1, out1 = demo(); meta["demo_rc_patched"] = rc1; meta["demo_out_patched"] = out1
+    if not (rc0 == 0 and rc1 not in (0, None)):
+        # configuration-specific demo: use the author's own command (worktree is patched now; then unpatched)
+        rc1b, out1b = demo_header()
+        sh("git -C %s apply -R %s/patch.diff" % (wt, src))
+        ok0, _ = build_and_test()
+        rc0b, out0b = demo_header()
+        meta["demo_header_cmd"] = {"rc_unchanged": rc0b, "rc_patched": rc1b, "out_patched": out1b}
+        if rc0b == 0 and rc1b not in (0, None):
+            rc0, rc1 = rc0b, rc1b
+            meta["demo_rc_unchanged"], meta["demo_rc_patched"], meta["demo_out_patched"] = rc0, rc1, out1b
+            meta["confirmed_with"] = "the compile command in the demo's header (configuration-specific build)"
 finally:
     sh("git -C /repo worktree remove --force %s" % wt)
 meta["confirmed"] = bool(meta.get("unchanged_ctest_ok") and meta.get("patched_ctest_ok") and meta.get("patch_applies") and rc0 == 0 and rc1 not in (0, None))
 print(json.dumps({k: v for k, v in meta.items() if k not in ("patched_ctest_tail",)}, indent=1))
-# run checks against it
-assert sh("git -C /repo status --porcelain --untracked-files=no").stdout.strip() == "", "/repo not clean"
-r = sh("git -C /repo apply %s/patch.diff" % src)
+# run checks against it: in a private worktree (VERIF_REPO), /repo itself is never modified
+wt2 = "/tmp/wt/run-" + name
+sh("git -C /repo worktree remove --force %s" % wt2)
+sh("git -C /repo worktree add --detach %s HEAD" % wt2)
+r = sh("git -C %s apply %s/patch.diff" % (wt2, src))
 try:
     for c in checks:
         t0 = time.time()
-        rr = sh("cd %s && timeout 3000 bin/check %s --tier quick" % (VERIF, c))
+        rr = sh("cd %s && VERIF_REPO=%s VERIF_EVIDENCE_DIR=%s/_evidence timeout 3000 bin/check %s --tier quick" % (VERIF, wt2, wt2, c))
         lines = [l for l in rr.stdout.splitlines() if l.startswith(("VIOLATION", "OK ", "KNOWN", "BROKEN"))]
         meta["ran"].append({"cmd": "bin/check %s --tier quick" % c, "rc": rr.returncode, "wall_s": round(time.time() - t0, 1), "lines": lines[:6],
                             "violation_keys": re.findall(r"violation key=(\S+):", rr.stdout)[:6]})
@@ -72,7 +120,7 @@ try:
         if rr.returncode != 1:
             print(rr.stdout[-1500:])
 finally:
-    sh("git -C /repo checkout -- .")
+    sh("git -C /repo worktree remove --force %s" % wt2)
 meta["detected"] = any(x["rc"] == 1 for x in meta["ran"])
 dst = os.path.join(VERIF, "seeded", name)
 os.makedirs(dst, exist_ok=True)
